@@ -869,6 +869,11 @@ pub fn payloads(g: &mut G, tag: &str) -> Vec<(&'static str, Vec<u8>)> {
         ("nul-esc", format!("{}\0\x1b[x\x1b\n", tag).into_bytes()),
         ("invalid-utf8", vec![0xff, 0xfe, b'\n', 0xc3, 0x28, b'\n', 0xe2, 0x82, b'\n']),
         ("sgr", format!("\x1b[31m{}-red\x1b[0m\n\x1b[1;32m{}\x1b[m\n", tag, tag).into_bytes()),
+        // bytes that are not UTF-8 next to escape sequences (finding Z)
+        (
+            "sgr-bytes",
+            [b"\x1b[31m".as_slice(), tag.as_bytes(), b"\xff\xfe-red\x1b[0m\n\xc3\x28", tag.as_bytes(), b"\x1b[1;4m\x80\x1b[m\n"].concat(),
+        ),
         // control characters that are no escape sequences next to real ones (finding P)
         (
             "sgr-controls",
